@@ -1667,14 +1667,10 @@ class SMTFormula(Formula):
         return 1
 
     def __neg__(self) -> "SMTFormula":
-        return SMTFormula(
-            z3_push_in_negations(self.formula, negate=True),
-            *self.free_variables(),
-            instantiated_variables=self.instantiated_variables,
-            substitutions=self.substitutions,
-            auto_eval=self.auto_eval,
-            auto_subst=self.auto_subst,
-        )
+        # Pushing in the negation simplifies the Z3 formula, which can remove
+        # variables (`not (x = x)` becomes `False`); `convert_smt_formula_to_nnf`
+        # takes care of that.
+        return cast(SMTFormula, convert_smt_formula_to_nnf(self, negate=True).unwrap())
 
     def __repr__(self):
         return (
